@@ -235,6 +235,38 @@ Proof.
       [|reflexivity]. cbn [fst].
     refine (at_path_st_nranks s path _ (es', nx, rk) Hs _ Hat). apply get_ref_single_len.
   - destruct (Nat.leb (length pt) (nranks s) && negb (Nat.eqb (length pt) 0)); reflexivity.
+  - destruct (Nat.ltb (S (length path)) (nranks s) && plain_wf (nranks s - S (length path)) t);
+      [|reflexivity].
+    destruct (fiber_at path (root_es s)) as [e|]; [|reflexivity].
+    destruct (match last_coord e with Some m => m <? c | None => true end); [|reflexivity].
+    destruct (at_path_st path _ O (root_es s) (s_next s) (s_ranks s)) as [[[es' nx] rk]|] eqn:Hat;
+      [|reflexivity]. cbn [fst].
+    refine (at_path_st_nranks s path _ (es', nx, rk) Hs _ Hat). intros. apply append_fib_len.
+  - destruct t as [v|l]; [reflexivity|].
+    destruct (Nat.ltb (length path) (nranks s) && plain_wf (nranks s - length path) (Node l));
+      [|reflexivity].
+    destruct (fiber_at path (root_es s)) as [e|]; [|reflexivity].
+    destruct (is_empty (s_d s) (Node l)); [reflexivity|].
+    destruct (match last_coord e, l with Some m, (c0, _) :: _ => m <? c0 | _, _ => true end);
+      [|reflexivity].
+    destruct (at_path_st path _ O (root_es s) (s_next s) (s_ranks s)) as [[[es' nx] rk]|] eqn:Hat;
+      [|reflexivity]. cbn [fst].
+    refine (at_path_st_nranks s path _ (es', nx, rk) Hs _ Hat). intros. apply extend_fib_len.
+  - destruct (Nat.ltb (S (length path)) (nranks s) && plain_wf (nranks s - S (length path)) t);
+      [|reflexivity].
+    destruct (fiber_at path (root_es s)) as [e|]; [|reflexivity]. cbv zeta.
+    destruct (((if pos <? 0 then pos + Z.of_nat (length e) else pos) <? 0)
+              || (Z.of_nat (length e) <=? (if pos <? 0 then pos + Z.of_nat (length e) else pos)));
+      [reflexivity|].
+    destruct (at_path_st path _ O (root_es s) (s_next s) (s_ranks s)) as [[[es' nx] rk]|] eqn:Hat;
+      [|reflexivity]. cbn [fst].
+    refine (at_path_st_nranks s path _ (es', nx, rk) Hs _ Hat). intros. apply setitem_fib_len.
+  - destruct (prune (s_d s) t) as [v|l]; [reflexivity|].
+    destruct (Nat.ltb (length path) (nranks s) && plain_wf (nranks s - length path) t);
+      [|reflexivity].
+    destruct (at_path_st path _ O (root_es s) (s_next s) (s_ranks s)) as [[[es' nx] rk]|] eqn:Hat;
+      [|reflexivity]. cbn [fst].
+    refine (at_path_st_nranks s path _ (es', nx, rk) Hs _ Hat). intros. apply assign_fib_len.
 Qed.
 
 Lemma outcome_code_V o :
